@@ -87,7 +87,7 @@ fn open_and_dump(img: &Image, v: Variant) -> Result<Dump, (String, String)> {
     SimFs::uninstall();
     match r {
         Caught::Ok(r) => r,
-        Caught::Panic(p) => Err((format!("panic:{}", normalise(&p)), format!("panic while opening/reading as {v:?}: {p}"))),
+        Caught::Panic(p) => Err((panic_class(&p), format!("panic while opening/reading as {v:?}: {p}"))),
         Caught::Budget => Err(("budget".into(), "step budget exceeded".into())),
     }
 }
